@@ -10,6 +10,20 @@ NOTE = ("Trusted: Lean 4.33 kernel; axioms propext / Classical.choice / Quot.sou
         "standards. CPython's re/str/int semantics are modelled, not verified.")
 
 CLAIMS = {
+    "C16": dict(
+        text="Lean 4 theorems: == is an equivalence and is equality of the compact strings (also against plain "
+             "str), equal objects have equal hash keys, < is the irreflexive, transitive, total lexicographic order "
+             "by code point, <= is < or ==, incomparable objects are equal (so sorted() and dict lookups are "
+             "consistent); copy / deepcopy / pickle of ANY object (valid or built with validation off) yield an "
+             "equal object of the same class and country under the reconstruction protocol "
+             "cls.__new__(cls, *getnewargs) + restored dict, given class facts (arity of __new__ = length of "
+             "__getnewargs__, no protocol overrides, non-validating __deepcopy__) that are read off the live "
+             "classes and kernel-checked; the pinned BBAN arity defect is a theorem about the model. PARTIAL: that "
+             "CPython's copyreg/pickle implement that protocol, and that the operators are those of the model, is "
+             "validated by correspondence (all operators on mixed pairs, protocols 0-5, cross-process unpickling).",
+        design="7 (C16)",
+        technique="Lean 4 proof (order/equivalence laws on code-point lists; protocol model) + regenerated class "
+                  "facts + differential correspondence incl. cross-process pickles"),
     "C08": dict(
         text="Lean 4 theorems for every well-formed country entry and ALL component strings (any length, any code "
              "points): zfill keeps every supplied character (length max(len,width), zeros then the value, sign rule); "
